@@ -319,7 +319,7 @@ Section WithSerialize.
             match assoc "gql" env0 with
             | Some _ => PyNotCallable
             | None =>
-                let qv := hd "query" (variable_names g) in
+                let qv := hd "query" (variable_names S g) in
                 let env1 := (qv, query_text) :: env0 in      (* query = gql(...): may overwrite a parameter *)
                 match eval_dict env1 (g_dict g) with
                 | None => PyNotCallable
@@ -347,7 +347,7 @@ Section WithSerialize.
             match assoc "gql" env0 with
             | Some _ => PyNotCallable
             | None =>
-                let qv := hd "query" (variable_names g) in
+                let qv := hd "query" (variable_names S g) in
                 let env1 := (qv, query_text) :: env0 in
                 match eval_dict env1 (g_dict g) with
                 | None => PyNotCallable
@@ -537,9 +537,12 @@ Section WithSerialize.
   (* the name the method's `query` local can take: underscores, then query *)
   Definition query_like (f : string) : bool := String.eqb (strip_us f) "query".
 
+  (* SCOPE of the model (no theorem needs it any more): a serialize FUNCTION that is itself called UNSET or gql would
+     replace the imported sentinel / be replaced by the module's own gql in client.py - module-level name clashes the
+     model does not represent; the harness never configures such names *)
   Definition ser_name_ok (S : schema) (v : vardef) : bool :=
     match var_ser S (v_type v) with
-    | Some f => negb (query_like f) && negb (is_item_name f) && negb (String.eqb f "UNSET")
+    | Some f => negb (String.eqb f "UNSET") && negb (String.eqb f "gql")
     | None => true
     end.
 
@@ -549,16 +552,12 @@ Section WithSerialize.
     let py := map (fun v => nm (v_name v)) vs in
     forallb py_ok_name py && nodup_str py &&
     negb (mem_str "gql" py) && negb (mem_str "UNSET" py) &&
-    forallb (fun v => match var_ser S (v_type v) with Some f => negb (mem_str f py) | None => true end) vs &&
-    forallb (ser_name_ok S) vs.
+    forallb (fun v => match var_ser S (v_type v) with Some f => negb (mem_str f py) | None => true end) vs.
 
-  (* THE GUARD THAT REMAINS after /repo 7f3b78b (clashing parameters and locals are renamed): names that
-     process_name itself breaks (_1 -> 1: no identifier), and a serialize FUNCTION that is itself called like a
-     method local (query, _query, ...), like a comprehension variable (_itemN) or UNSET *)
+  (* (no parameter-name guard remains after /repo 7f3b78b, e1c98d1, 6bef770, 70630f0; names_ok = the scope above) *)
   Definition ident_ok (s : string) : bool := py_identifier (s2l s) && negb (iskeyword (s2l s)).
 
-  Definition names_ok (S : schema) (snake : bool) (vs : list vardef) : bool :=
-    forallb (fun v => ident_ok (base_name snake (v_name v))) vs && forallb (ser_name_ok S) vs.
+  Definition names_ok (S : schema) (vs : list vardef) : bool := forallb (ser_name_ok S) vs.
 End WithSerialize.
 
 (* instrumented serialize used by the harness and by the witnesses:
@@ -625,7 +624,7 @@ Definition run_args (e : sexp) : sexp :=
       match dB sn, schema_of_sexp sch, dList vardef_of_sexp vs with
       | Some snake, Some Sc, Some vds =>
           match generate Sc (naming Sc snake [rc] vds) vds with
-          | Some g => L [A "ok"; sGenerated g; sB (sig_ok g); sB (names_ok Sc snake vds);
+          | Some g => L [A "ok"; sGenerated Sc g; sB (sig_ok g); sB (names_ok Sc vds);
                          sB (inputs_ok Sc snake); sB (g_f21 Sc); sB (forallb (ser_name_ok Sc) vds)]
           | None => A "gen-error" end
       | _, _, _ => sErr "gen: decode" end
@@ -648,7 +647,7 @@ Definition run_args (e : sexp) : sexp :=
                [("Int", BInt); ("Float", BFloat); ("String", BString); ("Boolean", BBoolean); ("ID", BID)]);
          L (map A (reserved_names []));
          A (item_name 7);
-         L (map A (variable_names {| g_params := []; g_dict := [] |}));
+         L (map A (variable_names [] {| g_params := []; g_dict := [] |}));
          A (ann_str (AUnionUnset (AOptional (AList (AName "T")))))]
   | L [A "split"; A s] =>
       L [sOpt A (fst (split_dotted s)); A (snd (split_dotted s))]
